@@ -10,6 +10,7 @@ from sim.snapshot import apply_record, snapshot
 
 from fractions import Fraction
 from ref import settle as rs
+from .c02 import RigWorld
 
 from pokerkit import Mode
 
@@ -224,6 +225,9 @@ def run(ch, ctx):
     if ch.chance('c12.split', 1, 3):
         bias['variants'] = ('FO8', 'F7S8', 'XO5', 'XSHL', 'PO', 'NT')     # hi-lo and several boards / run-outs
         bias['sbcs'] = (1, 2, 2)
+    elif ch.chance('c12.lowball', 1, 4):
+        bias['variants'] = ('FB', 'FR', 'F2L3D', 'N2L1D', 'XA5')          # low games: small badugis, tied lows
+        ctx.count('lowball_focus_runs')
     cfg = gen_config(ch, bias)
     if cfg['chip'] == 'fraction':
         cfg['divmod'] = 'exact'
@@ -232,9 +236,10 @@ def run(ch, ctx):
     world = None
     run_key = run_key_of(ch)
     try:
-        world = World(ch, ctx, cfg, [adv, table], run_key=run_key, muck_num=0, partial_show=False,
-                      profile=ch.choice('c12.profile', ('passive', 'passive', 'balanced')),
-                      dealer=ch.choice('c12.dealer', ('engine', 'explicit')))
+        world = RigWorld(ch, ctx, cfg, [adv, table], run_key=run_key, muck_num=0, partial_show=False,
+                         profile=ch.choice('c12.profile', ('passive', 'passive', 'balanced')),
+                         dealer=ch.choice('c12.dealer', ('engine', 'explicit', 'rigged', 'rigged')))      # rigged: ties,
+        #                 counterfeited lows, suited hands sharing ranks, blocked badugi cards (dealer of C02)
         world.run_key = run_key
         world.run()
         forced = twin_check(world, ctx)
